@@ -28,8 +28,7 @@ PROPS = {
     },
     "C17": {
         "pkg": "hpure", "test": "TestC17", "replay_test": "TestC17_Replay", "level": "exploration",
-        "quick": T(16, 0, tests=[{"test": "TestC14", "checks": 1500}, {"test": "TestC14_Service", "checks": 3, "pkg": "hserver"}]),
-        "thorough": T(16, 0, timeout=5000, tests=[{"test": "TestC14", "checks": 100000}, {"test": "TestC14_Service", "checks": 60, "pkg": "hserver"}]),
+        "quick": T(16, 1500), "thorough": T(16, 100000, timeout=5000),
         "rule": "rapid state machine over the real ReplicateMeteImpl with a JSON-round-tripping in-memory store: report(task,msg,1..2 shards) / remove / reload over 3 tasks (ids in prefix relation) x 1..3 messages "
                 "(collection and partition kind, 1..4 target shards); oracle after every step: store == memory == model (union of reports), ready iff union == target. "
                 "non-trivial = some message received >= 3 reports, or a reload happened while a message was partially reported; distinct = distinct history",
